@@ -8,6 +8,7 @@ mod p15;
 mod hproj;
 mod p01;
 mod p02;
+mod p03;
 mod p05;
 mod p04;
 mod p06;
@@ -19,6 +20,7 @@ mod p14;
 mod p16;
 mod p17;
 mod p18;
+mod p19;
 mod p20;
 mod p08;
 mod props;
@@ -130,6 +132,7 @@ fn main() {
             return;
         }
         "C01" => p01::run(&args),
+        "C03" => p03::run(&args),
         "C05" => p05::run(&args),
         "c05-worker" => {
             p05::worker();
@@ -141,6 +144,11 @@ fn main() {
         "C02" => p02::run(&args),
         "C17" => p17::run(&args),
         "C18" => p18::run(&args),
+        "C19" => p19::run(&args),
+        "c19-worker" => {
+            p19::worker();
+            return;
+        }
         "C20" => p20::run(&args),
         "C08" => p08::run08(&args),
         "C09" => p08::run09(&args),
